@@ -16,8 +16,8 @@ for d in seeded/C*-m*; do
   res=$(${LINT:-/verif/bin/conduitlint} -repo $REPO -verif /verif -prop ALL 2>&1)
   git -C $REPO checkout -q -- . ; git -C $REPO clean -fdq
   all=$(echo "$res" | grep -oE "^\s+(VIOLATION|UNDECIDED|UNRESOLVED) C[0-9]+\.R[0-9]+" | awk '{print $2}' | sort -u)
-  XX
-  oth=$(echo "$all" | grep -v "^$prop\." | tr '\n' ' ')
+  own=$(echo "$all" | grep "^$prop\." | tr '\n' ' ' | xargs)
+  oth=$(echo "$all" | grep -v "^$prop\." | tr '\n' ' ' | xargs)
   if [ -n "$own" ]; then v="detected"; elif [ -n "$oth" ]; then v="detected (other property)"; else v="NOT DETECTED"; fi
   echo "| $(basename $d) | $prop | $v | $own | $oth |" >> $out
   echo "$(basename $d) $v $own / $oth"
